@@ -11,7 +11,8 @@ open XmppModel.Component
 
 def parseItem (s : String) : Option Item :=
   if s == "P" then some .pi else if s == "S1" then some (.hdr true) else if s == "S0" then some (.hdr false)
-  else if s == "Sx" then some .hdrBad else if s == "K" then some .ack else if s == "X" then some .serr
+  else if s == "Sx" then some .hdrBad else if s == "K" || s == "K2" then some .ack else if s == "Ko" then some .ackOpen
+  else if s == "Kc" then some .ackClose else if s == "X" then some .serr
   else if s == "O" then some .other else if s == "T" then some .text else none
 
 def showEv : Ev → String
